@@ -8,7 +8,7 @@ wt=$(mktemp -d /tmp/verif_mut.XXXXXX)
 rmdir "$wt"
 git -C /repo worktree add -q --detach "$wt" HEAD || exit 2
 trap 'git -C /repo worktree remove --force "$wt"; rm -rf "$wt.out"' EXIT
-git -C "$wt" apply "$patch" || { echo "patch does not apply"; exit 2; }
+git -C "$wt" apply "$patch" 2>/dev/null || (cd "$wt" && patch -s -p1 --fuzz=3 < "$patch") || { echo "patch does not apply"; exit 2; }
 cd "$(dirname "$0")/.."
 for p in "$@"; do
   VERIF_REPO="$wt" VERIF_OUT="$wt.out" ./check "$p" --tier "${TIER:-quick}" 2>&1 | grep -E "VIOLATION|KNOWN-FINDING|^\[C|^  C|Error|error" | head -12
